@@ -16,6 +16,8 @@
 (*   - send() returning an error leaves no connection behind; returning a  *)
 (*     response leaves exactly the connection the response reads from;     *)
 (*     dropping the response releases it                             (C13) *)
+(*   - a dial that fails ends the call: the request is not taken to some   *)
+(*     other peer instead (a proxy that refuses is not bypassed)     (C11) *)
 (*                                                                         *)
 (* A token is <<kind, c>>: kind in "d" (dialled in clear, connection c =   *)
 (* next index), "s" (dialled and secured by TLS: the octets on the         *)
@@ -27,7 +29,7 @@
 (***************************************************************************)
 EXTENDS Naturals, Sequences, FiniteSets
 
-Conn0 == [open |-> TRUE, wrote |-> FALSE, read |-> FALSE, duplex |-> FALSE]
+Conn0 == [open |-> TRUE, wrote |-> FALSE, read |-> FALSE, duplex |-> FALSE, failed |-> FALSE]
 InitLife == [call |-> "sending", conns |-> <<>>]
 
 Open(L) == {i \in 1..Len(L.conns) : L.conns[i].open}
@@ -40,6 +42,7 @@ L07_oneRequestPerConnection(L, k, c) ==
   (k \in {"w", "t"} /\ IsConn(L, c)) => /\ L.call = "sending"
                                         /\ (L.conns[c].read => L.conns[c].duplex)
                                         /\ (k = "t" => ~L.conns[c].wrote)
+L11_aFailedDialEndsTheCall(L, k, c) == k \in {"d", "s", "n"} => \A i \in 1..Len(L.conns) : ~L.conns[i].failed
 L13_noSocketLeftOnError(L, k, c)  == k = "err" => Open(L) = {}
 L13_onlyTheResponseSocketOnReturn(L, k, c) ==
   k = "ok" => /\ Open(L) = {Len(L.conns)} /\ Len(L.conns) > 0
@@ -49,7 +52,8 @@ L13_releasedWithResponse(L, k, c) == k = "end" => Open(L) = {}
 L13_readsOnlyFromTheResponse(L, k, c) == (k = "r" /\ L.call = "ok") => c = Len(L.conns)
 
 LifeGuards == {"L13_oneConnectionAtATime", "L07_requestBeforeReply", "L07_oneRequestPerConnection", "L13_noSocketLeftOnError",
-               "L13_onlyTheResponseSocketOnReturn", "L13_releasedWithResponse", "L13_readsOnlyFromTheResponse"}
+               "L13_onlyTheResponseSocketOnReturn", "L13_releasedWithResponse", "L13_readsOnlyFromTheResponse",
+               "L11_aFailedDialEndsTheCall"}
 LifeGuard(g, L, k, c) ==
   CASE g = "L13_oneConnectionAtATime" -> L13_oneConnectionAtATime(L, k, c)
     [] g = "L07_requestBeforeReply" -> L07_requestBeforeReply(L, k, c)
@@ -58,7 +62,9 @@ LifeGuard(g, L, k, c) ==
     [] g = "L13_onlyTheResponseSocketOnReturn" -> L13_onlyTheResponseSocketOnReturn(L, k, c)
     [] g = "L13_releasedWithResponse" -> L13_releasedWithResponse(L, k, c)
     [] g = "L13_readsOnlyFromTheResponse" -> L13_readsOnlyFromTheResponse(L, k, c)
-LifeProp(g) == IF g \in {"L07_requestBeforeReply", "L07_oneRequestPerConnection"} THEN "C07" ELSE "C13"
+    [] g = "L11_aFailedDialEndsTheCall" -> L11_aFailedDialEndsTheCall(L, k, c)
+LifeProp(g) == IF g \in {"L07_requestBeforeReply", "L07_oneRequestPerConnection"} THEN "C07"
+               ELSE IF g = "L11_aFailedDialEndsTheCall" THEN "C11" ELSE "C13"
 LifeViolations(L, k, c) == {g \in LifeGuards : ~LifeGuard(g, L, k, c)}
 
 \* tokens that cannot come from any client (the recording itself would be broken): an operation on a connection
@@ -74,7 +80,7 @@ Recordable(L, k, c) ==
 \* ---- effect of a token
 Apply(L, k, c) ==
   CASE k = "d" -> [L EXCEPT !.conns = Append(@, Conn0)]
-    [] k = "n" -> [L EXCEPT !.conns = Append(@, [Conn0 EXCEPT !.open = FALSE])]      \* a dial that failed: numbered, never open
+    [] k = "n" -> [L EXCEPT !.conns = Append(@, [Conn0 EXCEPT !.open = FALSE, !.failed = TRUE])]      \* a dial that failed: numbered, never open
     [] k = "s" -> [L EXCEPT !.conns = Append(@, [Conn0 EXCEPT !.duplex = TRUE])]
     [] k = "t" -> [L EXCEPT !.conns[c].wrote = TRUE, !.conns[c].duplex = TRUE]
     [] k = "w" -> [L EXCEPT !.conns[c].wrote = TRUE]
